@@ -3,5 +3,7 @@ CONSTANTS
   Worlds = {}
   BugCursorLeak = TRUE
   MaxInt = 1000000
-INVARIANTS TraceNotStuck ExactlyOneFormat HomoPaired OtherUntouched ReadyIsCurrent KnownFindings
+INVARIANTS ExactlyOneFormat HomoPaired OtherUntouched ReadyIsCurrent KnownFindings
+POSTCONDITION TraceAccepted
 CHECK_DEADLOCK FALSE
+ALIAS Compact
